@@ -103,6 +103,15 @@ var targets = []target{
 	{Group: "Mt", Mod: "mt", Pkg: "keeper", Func: "Keeper.SubBalance", Lean: "SubBalance", Locals: []string{"balance"}, Guards: true, Conds: true},
 	{Group: "Mt", Mod: "mt", Pkg: "keeper", Func: "Keeper.IncreaseMTSupply", Lean: "IncreaseMTSupply", Locals: []string{"supply"}, Guards: true, Conds: true},
 	{Group: "Mt", Mod: "mt", Pkg: "keeper", Func: "Keeper.decreaseMTSupply", Lean: "decreaseMTSupply", Locals: []string{"supply"}, Guards: true, Conds: true},
+	{Group: "Nft", Mod: "nft", Pkg: "types", Func: "Modified", Lean: "Modified"},
+	{Group: "Nft", Mod: "nft", Pkg: "types", Func: "Modify", Lean: "Modify"},
+	{Group: "Nft", Mod: "nft", Pkg: "keeper", Func: "Keeper.UpdateNFT", Lean: "UpdateNFT",
+		Locals: []string{"token_Uri", "token_UriHash", "nftMetadata_Name", "nftMetadata_Data"}, Guards: true, Conds: true},
+	{Group: "Nft", Mod: "nft", Pkg: "keeper", Func: "Keeper.TransferOwnership", Lean: "TransferOwnership",
+		Locals: []string{"tokenChanged", "tokenMetadataChanged", "token_Uri", "token_UriHash", "nftMetadata_Name", "nftMetadata_Data"}, Guards: true, Conds: true},
+	{Group: "Nft", Mod: "nft", Pkg: "keeper", Func: "Keeper.MintNFT", Lean: "MintNFT", Guards: true, Conds: true},
+	{Group: "Nft", Mod: "nft", Pkg: "keeper", Func: "Keeper.TransferDenomOwner", Lean: "TransferDenomOwner", Guards: true, Conds: true},
+	{Group: "Nft", Mod: "nft", Pkg: "keeper", Func: "Keeper.Authorize", Lean: "Authorize", Guards: true, Conds: true},
 	{Group: "Random", Mod: "random", Pkg: "types", Func: "PRNG.GetRand", Lean: "GetRand",
 		Locals: []string{"seedBT", "seedBH", "seedTI", "seedSum", "seedOS", "precision"}, Conds: true},
 	{Group: "TokenFee", Mod: "token", Pkg: "keeper", Func: "Keeper.MintToken", Lean: "MintToken",
@@ -412,7 +421,15 @@ func (t *tr) expr(e ast.Expr, out *[]string) (string, kind) {
 		switch x.Op {
 		case token.LOR, token.LAND:
 			if len(rhs) > 0 {
-				t.fail(x, "short-circuit operand that can panic")
+				// the right operand is evaluated (and can panic) only if the left one does not decide
+				v := t.fresh()
+				inner := "(do " + strings.Join(rhs, "; ") + "; some " + b + ")"
+				if x.Op == token.LOR {
+					*out = append(*out, fmt.Sprintf("let %s ← (if %s then some true else %s)", v, a, inner))
+				} else {
+					*out = append(*out, fmt.Sprintf("let %s ← (if %s then %s else some false)", v, a, inner))
+				}
+				return v, kBool
 			}
 			op := map[token.Token]string{token.LOR: "||", token.LAND: "&&"}[x.Op]
 			return "(" + a + " " + op + " " + b + ")", kBool
@@ -480,6 +497,9 @@ func (t *tr) knownCall(c *ast.CallExpr) bool {
 			return ok
 		}
 		if fn, ok := info.ObjectOf(f.Sel).(*types.Func); ok {
+			if _, ok := t.knownGo[fn.FullName()]; ok {
+				return true
+			}
 			_, ok := funcs[fn.FullName()]
 			return ok
 		}
@@ -632,6 +652,9 @@ func (t *tr) call(c *ast.CallExpr, out *[]string) (string, kind) {
 		}
 		if fn, ok := info.ObjectOf(f.Sel).(*types.Func); ok {
 			full := fn.FullName()
+			if ln, ok := t.knownGo[full]; ok {
+				return emit(method{ln, true, kindOf(info.TypeOf(c))}, argsC(c.Args, false))
+			}
 			if m, ok := funcs[full]; ok {
 				if m.lean == "Uint64ToBigEndian" {
 					return emit(m, argsC(c.Args, false))
@@ -915,7 +938,7 @@ func translateFunc(p *packages.Package, fd *ast.FuncDecl, lean string, knownGo m
 
 // fragment mode: the right-hand side of every assignment to one of the named locals, each as
 // its own definition over the identifiers it mentions
-func translateLocals(p *packages.Package, fd *ast.FuncDecl, tg target) (defs []string, errs []string) {
+func translateLocals(p *packages.Package, fd *ast.FuncDecl, tg target, knownGo map[string]string) (defs []string, errs []string) {
 	want := map[string]bool{}
 	for _, l := range tg.Locals {
 		want[l] = true
@@ -943,7 +966,7 @@ func translateLocals(p *packages.Package, fd *ast.FuncDecl, tg target) (defs []s
 			count[id.Name]++
 			name := fmt.Sprintf("%s_%s_%d", tg.Lean, id.Name, count[id.Name])
 			func() {
-				t := &tr{pkg: p, opaque: true, pseen: map[string]bool{}, bound: map[string]kind{}, knownGo: map[string]string{}}
+				t := &tr{pkg: p, opaque: true, pseen: map[string]bool{}, bound: map[string]kind{}, knownGo: knownGo}
 				defer func() {
 					if r := recover(); r != nil {
 						if u, ok := r.(unsupported); ok {
@@ -998,7 +1021,7 @@ func translateLocals(p *packages.Package, fd *ast.FuncDecl, tg target) (defs []s
 				}
 				name := fmt.Sprintf("%s_call_%s_%d_arg%d", tg.Lean, sel.Sel.Name, nth[sel.Sel.Name], ai)
 				func() {
-					t := &tr{pkg: p, opaque: true, pseen: map[string]bool{}, bound: map[string]kind{}, knownGo: map[string]string{}}
+					t := &tr{pkg: p, opaque: true, pseen: map[string]bool{}, bound: map[string]kind{}, knownGo: knownGo}
 					defer func() {
 						if r := recover(); r != nil {
 							if u, ok := r.(unsupported); ok {
@@ -1046,7 +1069,7 @@ func translateLocals(p *packages.Package, fd *ast.FuncDecl, tg target) (defs []s
 				continue // outcome of a lookup or of address parsing: not arithmetic
 			}
 			func() {
-				t := &tr{pkg: p, opaque: true, pseen: map[string]bool{}, bound: map[string]kind{}, knownGo: map[string]string{}}
+				t := &tr{pkg: p, opaque: true, pseen: map[string]bool{}, bound: map[string]kind{}, knownGo: knownGo}
 				defer func() {
 					if r := recover(); r != nil {
 						if _, ok := r.(unsupported); ok {
@@ -1143,7 +1166,7 @@ func writeGroup(group, outLean string, load func(string) []*packages.Package) {
 			continue
 		}
 		if len(tg.Locals) > 0 || tg.Guards || tg.Conds || len(tg.Calls) > 0 {
-			ds, es := translateLocals(pkg, fd, tg)
+			ds, es := translateLocals(pkg, fd, tg, knownGo)
 			defs = append(defs, ds...)
 			untranslated = append(untranslated, es...)
 			for _, d := range ds {
